@@ -354,3 +354,243 @@ def pairing_harnesses(tier):
 def interface_harnesses(tier):
     return [interface_harness(k, tier) for k in ("StandardNormal", "StandardNormal2x2", "ConditionalDiagonalNormal", "DiagonalNormal", "ConditionalIndependentBernoulli",
                                                   "Flow", "FlowEmbedding", "FlowConditionalBase")]
+
+
+# ------------------------------------------------------------------------------------------------------------------
+# C05: closed-form densities, means, sampling parameters
+# ------------------------------------------------------------------------------------------------------------------
+def gaussian_lp(xrow, mu, logstd):
+    """textbook diagonal Gaussian log-density: -1/2 sum ((x - mu) e^{-s})^2 - sum s - n/2 log(2 pi)   (normalised: lemma 4g)"""
+    from tsv.ops import s_exp
+    n = len(xrow)
+    q = rv(0)
+    for x, m, s in zip(xrow, mu, logstd):
+        z = (toreal(x) - toreal(m)) * s_exp(T.neg(toreal(s)))
+        q = q + z * z
+    return -rv(1) / 2 * q - sum((toreal(s) for s in logstd), rv(0)) - rv(n) / 2 * T.logf(2 * T.PI)
+
+
+def normal_harness(kind, ev):
+    n = int(np.prod(ev))
+    B = 2
+
+    def run(h, ctx):
+        if kind == "StandardNormal":
+            d = DN.StandardNormal(ev); c = None
+        elif kind == "DiagonalNormal":
+            d = DN.DiagonalNormal(ev); c = None
+            d._parameters["mean_"] = h.inp("p:mean_", (1, n), owner="param"); d._parameters["log_std_"] = h.inp("p:log_std_", (1, n), owner="param")
+        else:
+            d = DN.ConditionalDiagonalNormal(ev); c = h.inp("context", (B, 2 * n))
+        h.d, h.c = d, c
+        x = h.inp("x", (B,) + tuple(ev))
+        lp = d.log_prob(x, context=c)
+        mean = d.mean(context=c)
+        smp = d.sample(2, context=c) if kind != "DiagonalNormal" else None
+        return lp, mean, smp
+
+    def params(h, b):
+        if kind == "StandardNormal": return [rv(0)] * n, [rv(0)] * n
+        if kind == "DiagonalNormal": return list(P(h.d.mean_).reshape(-1)), list(P(h.d.log_std_).reshape(-1))
+        pc = P(h.c)
+        return list(pc[b, :n]), list(pc[b, n:])
+
+    def post(h, ctx, value):
+        lp, mean, smp = value
+        px = P(h.inputs["x"])
+        ensure(h, ctx, "C05.log_prob-shape", z3.BoolVal(tuple(P(lp).shape) == (B,)))
+        for b in range(B):
+            mu, ls = params(h, b)
+            ensure(h, ctx, "C05.log_prob-is-gaussian-density", P(lp)[b] == gaussian_lp(list(px[b].reshape(-1)), mu, ls))
+        ok_type = isinstance(mean, torch.Tensor)
+        ensure(h, ctx, "C05.mean-is-tensor", z3.BoolVal(ok_type), meta={"type": type(mean).__name__})
+        if ok_type:
+            want_shape = tuple(ev) if h.c is None else (B,) + tuple(ev)
+            ensure(h, ctx, "C05.mean-shape", z3.BoolVal(tuple(mean.shape) == want_shape), meta={"got": list(mean.shape)})
+            if tuple(mean.shape) == want_shape:
+                pm = P(mean).reshape(-1, n) if h.c is not None else P(mean).reshape(1, n)
+                for b in range(pm.shape[0]):
+                    mu, _ = params(h, b)
+                    for k in range(n):
+                        ensure(h, ctx, "C05.mean-is-location", toreal(pm[b, k]) == toreal(mu[k]))
+        if smp is not None:
+            ps = P(smp)
+            want = (2,) + tuple(ev) if h.c is None else (B, 2) + tuple(ev)
+            ensure(h, ctx, "C05.sample-shape", z3.BoolVal(tuple(ps.shape) == want))
+            if tuple(ps.shape) == want:
+                # every sample is  loc + scale * (one fresh standard-normal draw), with the location / scale of ITS context row
+                from tsv.ops import s_exp
+                draws = {}
+                for nm, dd in ctx.notes.get("random_draws", []):
+                    pd = P(dd).reshape(-1, n)
+                    for r in range(pd.shape[0]):
+                        for k in range(n): draws[pd[r, k].get_id()] = (r, k)
+                used = set(); ok = True
+                rows = [(i, j) for i in range(B) for j in range(2)] if h.c is not None else [(0, j) for j in range(2)]
+                for (i, j) in rows:
+                    el_ = (ps[i, j] if h.c is not None else ps[j]).reshape(-1)
+                    mu, ls = params(h, i)
+                    rws = set()
+                    for k in range(n):
+                        syms = [s_ for s_ in base_symbols(el_[k]) if s_ in draws]
+                        if len(syms) != 1 or draws[syms[0]][1] != k: ok = False; continue
+                        z = T.sym_by_id(syms[0]); rws.add(draws[syms[0]][0])
+                        ensure(h, ctx, "C05.sample-uses-own-location-and-scale", toreal(el_[k]) == toreal(mu[k]) + s_exp(toreal(ls[k])) * z)
+                    if len(rws) != 1 or next(iter(rws)) in used: ok = False
+                    used |= rws
+                ensure(h, ctx, "C05.sample-one-fresh-draw-per-sample", z3.BoolVal(ok))
+
+    def native_call(h, inp):
+        if kind == "StandardNormal": d = DN.StandardNormal(ev); c = None
+        elif kind == "DiagonalNormal":
+            d = DN.DiagonalNormal(ev); c = None
+            with torch.no_grad():
+                d.mean_.copy_(torch.tensor(np.asarray(inp["p:mean_"]), dtype=torch.float32)); d.log_std_.copy_(torch.tensor(np.asarray(inp["p:log_std_"]), dtype=torch.float32))
+        else:
+            d = DN.ConditionalDiagonalNormal(ev); c = torch.tensor(np.asarray(inp["context"]), dtype=torch.float32)
+        x = torch.tensor(np.asarray(inp["x"]), dtype=torch.float32)
+        return d.log_prob(x, context=c), d.mean(context=c), d, c, x
+
+    def native_clauses(h, inp, r):
+        lp, mean, d, c, x = r
+        if kind == "StandardNormal": mu = torch.zeros(B, n); ls = torch.zeros(B, n)
+        elif kind == "DiagonalNormal": mu = d.mean_.detach().expand(B, n); ls = d.log_std_.detach().expand(B, n)
+        else: mu, ls = c[:, :n], c[:, n:]
+        ref = torch.distributions.Normal(mu, ls.exp()).log_prob(x.reshape(B, n)).sum(1)
+        out = {"C05.log_prob-is-gaussian-density": bool(torch.allclose(lp, ref, atol=1e-4)), "C05.mean-is-tensor": isinstance(mean, torch.Tensor)}
+        if isinstance(mean, torch.Tensor):
+            want_shape = tuple(ev) if c is None else (B,) + tuple(ev)
+            out["C05.mean-shape"] = tuple(mean.shape) == want_shape
+        return out
+
+    def sample(h, rng):
+        return {"x": rng.normal(size=(B,) + tuple(ev)), "p:mean_": rng.normal(size=(1, n)), "p:log_std_": rng.normal(size=(1, n)) * 0.3, "context": rng.normal(size=(B, 2 * n)) * 0.5}
+    cls = {"StandardNormal": DN.StandardNormal, "DiagonalNormal": DN.DiagonalNormal, "ConditionalDiagonalNormal": DN.ConditionalDiagonalNormal}[kind]
+    hn = Harness(f"{kind}[event={'x'.join(map(str, ev))}]", run, post, native_call=native_call, native_clauses=native_clauses, sample=sample,
+                 functions=[cls._log_prob, cls._sample, cls._mean, cls.__init__])
+    hn.native_float32 = False
+    return hn
+
+
+def bernoulli_harness(Dd):
+    def run(h, ctx):
+        d = DD.ConditionalIndependentBernoulli([Dd])
+        c = h.inp("logits", (1, Dd))
+        h.d, h.c = d, c
+        lps = []
+        for bits in itertools.product([0.0, 1.0], repeat=Dd):
+            x = Sym.make(np.array([[rv(int(b)) for b in bits]], dtype=object), torch.float32)
+            lps.append((bits, d.log_prob(x, context=c)))
+        return lps, d.mean(context=c), d.sample(2, context=c)
+
+    def post(h, ctx, value):
+        lps, mean, smp = value
+        from tsv.ops import s_exp, s_sigmoid
+        tot = rv(0)
+        for bits, lp in lps:
+            numr, den = exp_of_term(P(lp)[0])
+            tot = tot + numr / den
+        ensure(h, ctx, "C05.bernoulli-sums-to-one", tot == 1)
+        logits = P(h.c)[0]
+        for k in range(Dd):
+            ensure(h, ctx, "C05.mean-is-success-probability", toreal(P(mean)[0, k]) == s_sigmoid(toreal(logits[k])))
+        # P(x = e_k-th bit 1, others 0) consistent with the mean: exp(lp(1 at k)) / exp(lp(0...0)) = p_k / (1 - p_k) = e^{l_k}
+        ps = P(smp)
+        ensure(h, ctx, "C05.sample-shape", z3.BoolVal(tuple(ps.shape) == (1, 2, Dd)))
+        draws = {}
+        for nm, dd in ctx.notes.get("random_draws", []):
+            for t in P(dd).reshape(-1): draws[t.get_id()] = True
+        ok = True
+        if tuple(ps.shape) == (1, 2, Dd):
+            for j in range(2):
+                for k in range(Dd):
+                    t = ps[0, j, k]
+                    syms = [s_ for s_ in base_symbols(t) if s_ in draws]
+                    if len(syms) != 1: ok = False; continue
+                    u = T.sym_by_id(syms[0])
+                    ensure(h, ctx, "C05.sample-is-indicator-of-uniform-below-p", toreal(t) == z3.If(u < s_sigmoid(toreal(logits[k])), rv(1), rv(0)))
+        ensure(h, ctx, "C05.sample-one-fresh-draw-per-sample", z3.BoolVal(ok))
+
+    def native_call(h, inp):
+        d = DD.ConditionalIndependentBernoulli([Dd]); c = torch.tensor(np.asarray(inp["logits"]), dtype=torch.float64)
+        tot = 0.0
+        for bits in itertools.product([0.0, 1.0], repeat=Dd):
+            tot += float(d.log_prob(torch.tensor([bits], dtype=torch.float64), context=c).exp())
+        return tot, d.mean(context=c), c
+
+    def native_clauses(h, inp, r):
+        tot, mean, c = r
+        return {"C05.bernoulli-sums-to-one": abs(tot - 1) < 1e-9, "C05.mean-is-success-probability": bool(torch.allclose(mean, torch.sigmoid(c), atol=1e-9))}
+    hn = Harness(f"ConditionalIndependentBernoulli[D={Dd}]", run, post, native_call=native_call, native_clauses=native_clauses,
+                 sample=lambda h, rng: {"logits": rng.normal(size=(1, Dd)) * 2}, functions=[DD.ConditionalIndependentBernoulli._log_prob, DD.ConditionalIndependentBernoulli._sample,
+                                                                                           DD.ConditionalIndependentBernoulli._mean])
+    hn.native_float32 = False
+    return hn
+
+
+def lotka_harness():
+    from nflows.distributions import uniform as DU
+
+    def run(h, ctx):
+        # only the constructor's normaliser is under contract; torch.distributions objects are external: their constructors are skipped
+        import torch.distributions as td
+        real_mvn, real_box = td.MultivariateNormal, DU.BoxUniform
+        class _Skip:
+            def __init__(self, *a, **k): pass
+        td.MultivariateNormal = _Skip; DU.BoxUniform = _Skip
+        try:
+            d = DU.LotkaVolterraOscillating()
+        finally:
+            td.MultivariateNormal = real_mvn; DU.BoxUniform = real_box
+        return d._log_normalizer
+
+    def post(h, ctx, value):
+        erf = T.opaque("erff")
+        from fractions import Fraction
+        sigma = rv(Fraction(1, 2))
+        root2 = T.sqrtf(rv(2))
+        tot = rv(0)
+        terms = []
+        for m in (Fraction(1, 100), Fraction(1, 2), Fraction(1), Fraction(1, 100)):
+            mu = T.logf(rv(m)) if m != 1 else rv(0)
+            terms.append(rv(1) / 2 * (erf((2 - mu) / (sigma * root2)) - erf((-5 - mu) / (sigma * root2))))
+        want = rv(0)
+        for t in terms: want = want - T.logf(t)
+        ctx.axiom([root2], z3.And(root2 > 0, root2 * root2 == 2))
+        ensure(h, ctx, "C05.truncated-gaussian-normaliser", el(value) == want)
+
+    def native_call(h, inp):
+        return DU.LotkaVolterraOscillating()._log_normalizer
+
+    def native_clauses(h, inp, res):
+        import math
+        mean = torch.log(torch.tensor([0.01, 0.5, 1, 0.01])).double()
+        want = -torch.log(0.5 * (torch.erf((2 - mean) / (0.5 * math.sqrt(2))) - torch.erf((-5 - mean) / (0.5 * math.sqrt(2))))).sum()
+        return {"C05.truncated-gaussian-normaliser": abs(float(res) - float(want)) < 1e-5}
+    hn = Harness("LotkaVolterraOscillating[normaliser]", run, post, native_call=native_call, native_clauses=native_clauses, sample=lambda h, rng: {},
+                 functions=[DU.LotkaVolterraOscillating.__init__], check_defined=False)
+    hn.native_float32 = False
+    return hn
+
+
+def mg1_harness():
+    from nflows.distributions import uniform as DU
+
+    def run(h, ctx):
+        d = DU.MG1Uniform.__new__(DU.MG1Uniform)
+        x = h.inp("x", (2, 3))
+        return d._to_parameters(d._to_noise(x)), d._to_noise(d._to_parameters(x))
+
+    def post(h, ctx, value):
+        px = P(h.inputs["x"])
+        for v in value:
+            for a, b_ in zip(P(v).reshape(-1), px.reshape(-1)):
+                ensure(h, ctx, "C05.mg1-change-of-variables-is-volume-preserving-bijection", a == b_)
+    return Harness("MG1Uniform[]", run, post, functions=[DU.MG1Uniform._to_noise, DU.MG1Uniform._to_parameters])
+
+
+def density_harnesses(tier):
+    hs = [normal_harness("StandardNormal", [2]), normal_harness("StandardNormal", [2, 2]), normal_harness("DiagonalNormal", [2]), normal_harness("DiagonalNormal", [2, 2]),
+          normal_harness("ConditionalDiagonalNormal", [2]), normal_harness("ConditionalDiagonalNormal", [1, 2]),
+          bernoulli_harness(1), bernoulli_harness(2), lotka_harness(), mg1_harness()]
+    return hs
